@@ -104,4 +104,27 @@ TEXT["C07"] = dict(engine="seqmc", design_ref="DESIGN.md 6 C07",
           "replaces the contents (all pairs of abstract-state representatives)",
     note=_FV_NOTE)
 
+TEXT["C17"] = dict(engine="enum", design_ref="DESIGN.md 6 C17",
+    technique="bounded exhaustive enumeration of strings x separators / patterns / replacements vs naive single-pass references, with per-case termination oracle",
+    level="model checking of the implementation: every string over {a,b,blank} up to the length bound x every separator/pattern/replacement "
+          "of length <= 3 (empty, overlapping and self-containing ones included) and every list of <= 3 elements x 5 infixes is run through "
+          "the real split / replace_all / starts_with / join; the laws of the statement and agreement with naive left-to-right scanners are "
+          "checked on every case, and every call must return (timer + address-space limit)",
+    note="trusted: the naive reference scanners in checks/C17.cpp; alphabet of 3 characters; g++/ASan")
+TEXT["C18"] = dict(engine="seqmc", design_ref="DESIGN.md 6 C18",
+    technique="explicit-state BFS to a fixpoint over operation histories on real quaint_ptr / optional objects vs ownership table / std::optional",
+    level="model checking of the implementation: all reachable states of a pool of 3 quaint_ptr + a vector<quaint_ptr> over three payload "
+          "types, and of a pool of 2 optionals, under every operation of the alphabet (create, move-construct, move-assign, reset, nullptr, "
+          "destroy, swap, vector push/insert/erase/pop/clear/take-back; construct, copy, assign lvalue/temporary/empty/self, read), to a "
+          "fixpoint; after every transition the set of payloads destroyed must be exactly the reference's, by the right destructor, moved-from "
+          "and reset pointers test empty, copies are deep, reading empty raises, and the teardown destroys everything exactly once",
+    note="trusted: the ownership-table reference and payload accounting in checks/C18.cpp; canonical state ignores payload ids")
+TEXT["C20"] = dict(engine="seqmc", design_ref="DESIGN.md 6 C20",
+    technique="exhaustive enumeration of container kind x length x value category x adaptor x iteration style on the real adaptors",
+    level="model checking (degenerate: one-step histories): every combination of 11 container kinds (vector, deque, list, map, std::array<0..4>, "
+          "fixed_vector full / with spare capacity, built-in arrays, initializer lists) x lengths 0..4 x lvalue/const/temporary x enumerate/"
+          "reverse x iteration styles (range-for, ++it, it++, *it++) is executed; order, indices 0..n-1, exactly-once, aliasing by address and "
+          "write-through, and liveness of temporaries for the whole loop are judged",
+    note="trusted: instrumented element type with live-set; ASan for dangling temporaries")
+
 NA = {}
